@@ -229,6 +229,19 @@ def run(script, ctx):
             ok, why = close(list(nb.weights), [1.0] * n, 0.0, 1.0)
             if not ok:
                 ctx.fail("conversion_changed_shape", "bspline_to_nurbs did not produce unit weights: %s" % why, op="bspline_to_nurbs", **sig)
+            # ... and the live rational shape itself: whatever nurbs_to_bspline returns for it (the object itself when its
+            # weights are not all one) must evaluate to the same points
+            model = R.Spline(spec["degrees"], spec["knots"], sizes, pw(), True, float)
+            res = g.convert.nurbs_to_bspline(obj)
+            for prm in ([0.0] * nd, [1.0] * nd, [0.3125, 0.6875, 0.4375][:nd], [0.5625, 0.1875, 0.8125][:nd]):
+                e = model.eval(prm)
+                got = list(res.evaluate_single(prm[0] if nd == 1 else prm))
+                ok, why = close(got, e, 1e-9)
+                if not ok:
+                    ctx.fail("conversion_changed_shape", "nurbs_to_bspline of a rational %s with weights in [%r, %r] evaluates to %r at %r, the input to %r" % (
+                        kind, min(W), max(W), got, prm, e), op="nurbs_to_bspline", **sig)
+            if all(w <= 1.0 for w in W) and any(w < 1.0 for w in W):
+                ctx.probe("nurbs_to_bspline_on_weights_le_1")
             ctx.ops_executed += 1
             ctx.probe("conversion_checked")
         elif k == "helpers":
